@@ -169,7 +169,7 @@ def r5(ctx, sch):
 def check(ctx):
     ctx.explanation = (
         "The GFF3 importer's own methods (_populate_from_lines, then _update_relations) are evaluated by the abstract evaluator against a model "
-        "database (a relational evaluator for the SQL subset used, an in-memory file system for the intermediate file): for a 9-line annotation "
+        "database (a relational evaluator for the SQL subset used, an in-memory file system for the intermediate file): for a 10-line annotation "
         "graph (depth 4, shared child, repeated and dangling Parent values, a line without ID) in several line orders -- all permutations of six "
         "lines in the thorough tier -- and for a second import into the filled database, the relations table must equal the Parent graph two "
         "levels deep. gffutils and sqlite3 are not imported or run; helper extraction, handler tables, generators or named placeholders in the "
@@ -198,7 +198,7 @@ def r_scenario(ctx):
         orders.append(o)
     if ctx.tier == "thorough":
         six = [0, 1, 2, 3, 4, 5]
-        orders += [list(p) + [6, 7, 8] for p in itertools.permutations(six)]
+        orders += [list(p) + list(range(6, len(base))) for p in itertools.permutations(six)]
     fn = require_func(ctx, "create._GFFDBCreator._update_relations")
     fp = require_func(ctx, "create._GFFDBCreator._populate_from_lines")
     bad1 = bad2 = badf = None
@@ -241,7 +241,7 @@ def r_scenario(ctx):
            sig="relations after a second import equal the two-level graph" if ok else "after a second import: missing %s, unexpected %s" % (sorted(want - got)[:4], sorted(got - want)[:4]))
     ctx.floor("R1", n, 6, "line orders of the GFF3 family evaluated")
     ctx.ob("R1", bad1 is None, "level-1 relations are exactly the (Parent value, feature id) pairs of the file, once each -- also for children before parents, shared "
-           "children, a repeated Parent value and a Parent naming no feature (%d line orders of a 9-line graph)" % n, func=fp,
+           "children, a repeated Parent value and a Parent naming no feature (%d line orders of a %d-line graph)" % (n, len(base)), func=fp,
            sig="level-1 relations equal the Parent graph" if bad1 is None else "level-1 relations differ: %s" % bad1)
     ctx.ob("R2", bad2 is None, "level-2 relations are exactly the compositions of two level-1 edges (depth-4 graph: nothing deeper), whatever the line order", func=fn,
            sig="level-2 relations equal the composed Parent graph" if bad2 is None else "level-2 relations differ: %s" % bad2)
